@@ -97,10 +97,11 @@ def analyse(fn):
     # memo table
     memo = None
     for s in fn.body:
-        if isinstance(s, ast.Assign) and isinstance(s.targets[0], ast.Name) and _sentinel(s.value) is not None and s.lineno < outer.lineno:
-            c = s.value.operand if isinstance(s.value, ast.UnaryOp) else s.value
+        if isinstance(s, ast.Assign) and isinstance(s.targets[0], ast.Name) and _sentinel(s.value, fn) is not None and s.lineno < outer.lineno:
+            sv = roles.inline(s.value, roles.Defs(fn))
+            c = sv.operand if isinstance(sv, ast.UnaryOp) else sv
             if isinstance(c, ast.Call) and c.args and unparse(c.args[0]) == NE:
-                memo = (s.targets[0].id, _sentinel(s.value), s.lineno)
+                memo = (s.targets[0].id, _sentinel(s.value, fn), s.lineno)
     if memo is None:
         raise AnalysisError("%s: edge -> vertex memo table not found" % FN)
     M, sent, mline = memo
